@@ -55,8 +55,8 @@ func init() {
 	})
 	reg(&Property{
 		ID:          "C03",
-		Explanation: "Decides necessary conditions only: P1 in tripleToRow every row store is followed on every path by the binding-consistency check whose false edge abandons the triple, and each extraction is built from the matching part of the triple; P2 the three tables naming a clause's bindings agree with the struct; P3 on each of the eight nil-patterns simpleFetch calls the driver method whose parameters are exactly the fixed components; S10 clause-level and row-supplied bounds are treated as mirror images; L3 row values looked up with comma-ok are not dereferenced when absent; S9 kind/instant matching at the driver. Also: P3b the unfeasible flag joins constants only; PO1 predicate/object extraction twins; TB1 the table's two column descriptions move together; S6b planner never writes the shared options; L3b cell pointer fields tested before use; S1/S1x index agreement. Not decided: soundness/completeness of the join. Round 3: P3c a fully specified clause is appended only after the running table was examined (fixed defect 9c8b916); TB2 the cross product has |left|x|right| rows; TB3 projections keep the rows; HK1.",
-		Rules: []func(*Ctx){ruleS6c, ruleP3c, ruleTB3, ruleHK1, ruleTB2, ruleS1, ruleS1x, ruleP1, ruleP2, ruleP3, ruleP3b, ruleS6b, rulePO1, ruleTB1, func(c *Ctx) { ruleL3b(c, "bql/planner") }, func(c *Ctx) { ruleS10(c, 3, "bql/planner", "bql/semantic", "storage/memory") },
+		Explanation: "Decides necessary conditions only: P1 in tripleToRow every row store is followed on every path by the binding-consistency check whose false edge abandons the triple, and each extraction is built from the matching part of the triple; P2 the three tables naming a clause's bindings agree with the struct; P3 on each of the eight nil-patterns simpleFetch calls the driver method whose parameters are exactly the fixed components; S10 clause-level and row-supplied bounds are treated as mirror images; L3 row values looked up with comma-ok are not dereferenced when absent; S9 kind/instant matching at the driver. Also: P3b the unfeasible flag joins constants only; PO1 predicate/object extraction twins; TB1 the table's two column descriptions move together; S6b planner never writes the shared options; L3b cell pointer fields tested before use; S1/S1x index agreement. Not decided: soundness/completeness of the join. Round 3: P3c a fully specified clause is appended only after the running table was examined (fixed defect 9c8b916); TB2 the cross product has |left|x|right| rows; TB3 projections keep the rows; HK1. Round 6: P3d.",
+		Rules: []func(*Ctx){ruleP3d, ruleS6c, ruleP3c, ruleTB3, ruleHK1, ruleTB2, ruleS1, ruleS1x, ruleP1, ruleP2, ruleP3, ruleP3b, ruleS6b, rulePO1, ruleTB1, func(c *Ctx) { ruleL3b(c, "bql/planner") }, func(c *Ctx) { ruleS10(c, 3, "bql/planner", "bql/semantic", "storage/memory") },
 			func(c *Ctx) { ruleL3(c, "bql/...") }, ruleS9},
 		Level:      "row-binding typestate (P1), table agreement (P2), dispatch by nil-pattern with edge facts (P3), bound duality (S10), comma-ok contradiction rule (L3)",
 		Trusted:    []string{"pair table of S10 (lower/upper field names)", trustedCore},
@@ -64,8 +64,8 @@ func init() {
 	})
 	reg(&Property{
 		ID:          "C04",
-		Explanation: "Decides: P9 which driver mutations each statement kind can reach (lexical closures per Execute), the construct flag selecting AddTriples vs RemoveTriples, the fan-out over every target graph with the whole batch, the target list being the one the grammar puts after INTO/FROM, and Reify using one fresh blank node for its three triples; P5 the query (graph resolution) precedes the writer in CONSTRUCT/DECONSTRUCT; P8 no write error is dropped; L6 the bulk writer is joined and its channel closed on every path. Also: P9c every row of the binding table sends at least one triple; P9d the bulk writer keeps its first error; I1 Init returns each graph lookup error at once; P8b tested errors are propagated; PO1. Not decided: that the written set equals the stated set. Round 3: TB3 projections keep the rows (constant-only templates); HK2 the bindings checker validates before accepting; S7b.",
-		Rules:       []func(*Ctx){ruleS13, ruleIE1, ruleTB3, ruleHK2, ruleS7b, ruleP9d, ruleP9, ruleP9c, rulePO1, ruleI1, ruleP5, func(c *Ctx) { ruleP8(c, "bql/planner") }, func(c *Ctx) { ruleP8b(c, "bql/planner") }, func(c *Ctx) { ruleL6(c, 12, "bql/planner") }},
+		Explanation: "Decides: P9 which driver mutations each statement kind can reach (lexical closures per Execute), the construct flag selecting AddTriples vs RemoveTriples, the fan-out over every target graph with the whole batch, the target list being the one the grammar puts after INTO/FROM, and Reify using one fresh blank node for its three triples; P5 the query (graph resolution) precedes the writer in CONSTRUCT/DECONSTRUCT; P8 no write error is dropped; L6 the bulk writer is joined and its channel closed on every path. Also: P9c every row of the binding table sends at least one triple; P9d the bulk writer keeps its first error; I1 Init returns each graph lookup error at once; P8b tested errors are propagated; PO1. Not decided: that the written set equals the stated set. Round 3: TB3 projections keep the rows (constant-only templates); HK2 the bindings checker validates before accepting; S7b. Round 6: OK1.",
+		Rules:       []func(*Ctx){ruleOK1, ruleS13, ruleIE1, ruleTB3, ruleHK2, ruleS7b, ruleP9d, ruleP9, ruleP9c, rulePO1, ruleI1, ruleP5, func(c *Ctx) { ruleP8(c, "bql/planner") }, func(c *Ctx) { ruleP8b(c, "bql/planner") }, func(c *Ctx) { ruleL6(c, 12, "bql/planner") }},
 		Level:       "statement-kind -> effect table over the call graph with lexically bound closures (P9), dominance of stages (P5), error use (P8), join typestate (L6)",
 		Trusted:     []string{"the statement-kind -> mutation table stated by the property (frozen in rule P9)", trustedCore},
 		NotDecided:  []string{"the written set equals the stated set (template instantiation per row is value-level)", "untouched graphs beyond 'only the named lists are iterated'"},
@@ -88,16 +88,16 @@ func init() {
 	})
 	reg(&Property{
 		ID:          "C07",
-		Explanation: "Decides, for every path of the analysed functions and hence every schedule that can drive them: S3 every access to a lock-guarded field (frozen guard table: memoryStore.graphs, the seven memory indexes, the five memoizer caches, Table rows/bindings) holds the owner's lock in the required mode; S4 no method re-acquires its receiver's lock through a same-receiver call; S5 every Store/Graph method with a result channel closes it exactly once on every return, error returns included; S6 no lookup (or module callee it hands the pointer to) stores through its *LookupOptions; S7 AddTriples is one critical section; S2 create/get/drop test presence under the lock; L6 planner goroutines are joined. Also: S2y write-locked create/drop; H3y module-wide pooled-buffer release order. Not decided: linearizability. Round 3: S13 lock balance per object; S3b/S3c/S3d completeness of the guard table, no package-level state, encapsulation of guarded fields; H4; H3w/H3z pooled values do not escape.",
-		Rules:       []func(*Ctx){ruleS7c, ruleH4, ruleS3d, func(c *Ctx) { ruleH3w(c, "triple/...", "io", "storage/...", "bql/...") }, func(c *Ctx) { ruleH3z(c, "triple/...", "io", "storage/...", "bql/...") }, func(c *Ctx) { ruleS3c(c, "triple/...", "io", "bql/...", "storage/...") }, ruleS3b, ruleS13, ruleS3, ruleS4, ruleS5, ruleS6, ruleS7, ruleS2, ruleS2y, func(c *Ctx) { ruleH3y(c) }, func(c *Ctx) { ruleL6(c, 23, "bql/planner", "storage/...") }},
+		Explanation: "Decides, for every path of the analysed functions and hence every schedule that can drive them: S3 every access to a lock-guarded field (frozen guard table: memoryStore.graphs, the seven memory indexes, the five memoizer caches, Table rows/bindings) holds the owner's lock in the required mode; S4 no method re-acquires its receiver's lock through a same-receiver call; S5 every Store/Graph method with a result channel closes it exactly once on every return, error returns included; S6 no lookup (or module callee it hands the pointer to) stores through its *LookupOptions; S7 AddTriples is one critical section; S2 create/get/drop test presence under the lock; L6 planner goroutines are joined. Also: S2y write-locked create/drop; H3y module-wide pooled-buffer release order. Not decided: linearizability. Round 3: S13 lock balance per object; S3b/S3c/S3d completeness of the guard table, no package-level state, encapsulation of guarded fields; H4; H3w/H3z pooled values do not escape. Round 6: LK1 no method locks its receiver twice.",
+		Rules:       []func(*Ctx){func(c *Ctx) { ruleLK1(c, "bql/table", "storage/...") }, ruleS7c, ruleH4, ruleS3d, func(c *Ctx) { ruleH3w(c, "triple/...", "io", "storage/...", "bql/...") }, func(c *Ctx) { ruleH3z(c, "triple/...", "io", "storage/...", "bql/...") }, func(c *Ctx) { ruleS3c(c, "triple/...", "io", "bql/...", "storage/...") }, ruleS3b, ruleS13, ruleS3, ruleS4, ruleS5, ruleS6, ruleS7, ruleS2, ruleS2y, func(c *Ctx) { ruleH3y(c) }, func(c *Ctx) { ruleL6(c, 23, "bql/planner", "storage/...") }},
 		Level:       "lockset (S3), lock re-entry (S4), close-exactly-once typestate on all returns (S5), options never written (S6), batch atomicity (S7)",
 		Trusted:     []string{"guard table of rule S3 (field -> lock; a new map/slice field on a lock-owning type is reported until added)", "tableSequentialOnly exemptions (3 Table methods, reasons in source)", trustedCore},
 		NotDecided:  []string{"linearizability of histories", "deadlocks that depend on the consumer of a result channel (lookups send while holding the read lock by design)", "panics", "data races on state outside the guard table"},
 	})
 	reg(&Property{
 		ID:          "C08",
-		Explanation: "Decides: X1/X1b every lexer loop and the state machine terminate; X2 exactly one terminal token then the channel is closed; X3 the cursor invariant; L7 evaluator recursion passes strictly shorter slices and the grammar consumes a token per recursion level; L1 every compiler-unproven index/slice on the statement path is discharged by a re-verified schema or reviewed entry; L2 no (nil, nil); L3 comma-ok values are not dereferenced when absent; L4 no process-killing call; P12 a negative LIMIT cannot reach make(); L6 every goroutine is joined or its producer drained; IO1 reader discipline. Also: X7 the scanner advances by the decoder's size; L2b, L3b, L6c, L6d (DESIGN §0.1). Not decided: absence of all panics, bounded running time. Round 3: D1 no defer in a loop.",
-		Rules: []func(*Ctx){ruleS13, func(c *Ctx) { ruleH3w(c, "triple/...", "io", "storage/...", "bql/...") }, func(c *Ctx) { ruleL3b(c, "bql/table") }, func(c *Ctx) { ruleD1(c, "triple/...", "io", "bql/...", "storage/...") }, ruleX7, ruleX1, ruleX1b, ruleX2, ruleX3,
+		Explanation: "Decides: X1/X1b every lexer loop and the state machine terminate; X2 exactly one terminal token then the channel is closed; X3 the cursor invariant; L7 evaluator recursion passes strictly shorter slices and the grammar consumes a token per recursion level; L1 every compiler-unproven index/slice on the statement path is discharged by a re-verified schema or reviewed entry; L2 no (nil, nil); L3 comma-ok values are not dereferenced when absent; L4 no process-killing call; P12 a negative LIMIT cannot reach make(); L6 every goroutine is joined or its producer drained; IO1 reader discipline. Also: X7 the scanner advances by the decoder's size; L2b, L3b, L6c, L6d (DESIGN §0.1). Not decided: absence of all panics, bounded running time. Round 3: D1 no defer in a loop. Round 6: OK1 object kinds handled together. LK1 no method locks its receiver twice. L6e several senders are not served by one receive.",
+		Rules: []func(*Ctx){func(c *Ctx) { ruleL6e(c, "bql/planner", "io", "storage/...") }, func(c *Ctx) { ruleLK1(c, "bql/table", "storage/...") }, ruleOK1, ruleS13, func(c *Ctx) { ruleH3w(c, "triple/...", "io", "storage/...", "bql/...") }, func(c *Ctx) { ruleL3b(c, "bql/table") }, func(c *Ctx) { ruleD1(c, "triple/...", "io", "bql/...", "storage/...") }, ruleX7, ruleX1, ruleX1b, ruleX2, ruleX3,
 			func(c *Ctx) { ruleL1(c, 80, "./triple/...", "./io/...", "./bql/...", "./storage/...") },
 			func(c *Ctx) { ruleL2(c, 100, "triple/...", "io", "bql/...", "storage/...") },
 			func(c *Ctx) { ruleL2b(c, 40, "triple/...", "io", "bql/...", "storage/...") },
@@ -137,24 +137,24 @@ func init() {
 	})
 	reg(&Property{
 		ID:          "C12",
-		Explanation: "Decides: P5 stage order pattern -> project/group -> order -> having -> limit, each once and dominating the next; P6 the limit is pushed into the driver only under empty GROUP BY, ORDER BY, HAVING and a single clause; P10 numeric/chronological order is not decided on renderings in the sort comparator; P12 the limit literal is an int64 and non-negative before it is stored and Table.Limit only ever receives it; P13 the comparator reads both rows under the first key, passes its direction and recurses on the remaining keys exactly on equality. Also: P12b ORDER BY de-duplication keeps whole original entries in order; P5c each stage works iff its clause is present. Not decided: that the sort yields a sorted permutation, DESC and multi-key handling. Round 3: P12c IsLimitSet returns the flag the LIMIT hook sets; T1 time layout. Round 5: P6c the limit is pushed into a lookup only if the consumer drops nothing; P13b stringLess branches on built-in comparisons of its arguments; N3 no int64->float conversion.",
-		Rules:       []func(*Ctx){ruleP6c, ruleP13b, func(c *Ctx) { ruleN3(c, "triple/...", "bql/table", "bql/semantic", "bql/planner") }, ruleS6c, ruleP12c, ruleT1, ruleP5, ruleP6, func(c *Ctx) { ruleP10(c, "bql/table") }, ruleP12, ruleP12b, ruleP13, ruleP5c},
+		Explanation: "Decides: P5 stage order pattern -> project/group -> order -> having -> limit, each once and dominating the next; P6 the limit is pushed into the driver only under empty GROUP BY, ORDER BY, HAVING and a single clause; P10 numeric/chronological order is not decided on renderings in the sort comparator; P12 the limit literal is an int64 and non-negative before it is stored and Table.Limit only ever receives it; P13 the comparator reads both rows under the first key, passes its direction and recurses on the remaining keys exactly on equality. Also: P12b ORDER BY de-duplication keeps whole original entries in order; P5c each stage works iff its clause is present. Not decided: that the sort yields a sorted permutation, DESC and multi-key handling. Round 3: P12c IsLimitSet returns the flag the LIMIT hook sets; T1 time layout. Round 5: P6c the limit is pushed into a lookup only if the consumer drops nothing; P13b stringLess branches on built-in comparisons of its arguments; N3 no int64->float conversion. Round 6: P5d.",
+		Rules:       []func(*Ctx){ruleP5d, ruleP6c, ruleP13b, func(c *Ctx) { ruleN3(c, "triple/...", "bql/table", "bql/semantic", "bql/planner") }, ruleS6c, ruleP12c, ruleT1, ruleP5, ruleP6, func(c *Ctx) { ruleP10(c, "bql/table") }, ruleP12, ruleP12b, ruleP13, ruleP5c},
 		Level:       "dominance of stages (P5), guard facts at the push-down sites (P6), taint from non-order-preserving renderings to string orderings (P10), guard facts on the limit store (P12)",
 		Trusted:     []string{"sort.Sort sorts", trustedCore},
 		NotDecided:  []string{"that the result is a sorted permutation (library)", "DESC and multi-key handling", "first n rows (value-level)", "row dropping inside the clause when the limit is pushed down (PID/extraction filters)"},
 	})
 	reg(&Property{
 		ID:          "C13",
-		Explanation: "Decides: P5 HAVING is applied after grouping and before limit; P10 the HAVING evaluators do not order numbers or times by their renderings; E1 each comparisonFor* evaluator tests the cell's kind-specific field before comparing; L7 the evaluator builder's recursion terminates; L2 evaluator constructors never return (nil, nil). Also: E2 NOT never returns its operand; P5c; P8/P8b evaluator errors propagate. Not decided: truth-functional correctness of the boolean evaluator and of the hand-written expression builder. Round 3: E3 evaluators are stateless; E4 formatCell compares the cell's own text; E1 the literal type test lies on every path.",
-		Rules:       []func(*Ctx){ruleT3, ruleE3, ruleE4, ruleE2, ruleP5, ruleP5c, func(c *Ctx) { ruleP8(c, "bql/semantic") }, func(c *Ctx) { ruleP8b(c, "bql/semantic") }, func(c *Ctx) { ruleP10(c, "bql/semantic") }, ruleE1, func(c *Ctx) { ruleL7(c, "bql/semantic") }, func(c *Ctx) { ruleL2(c, 40, "bql/semantic") }},
+		Explanation: "Decides: P5 HAVING is applied after grouping and before limit; P10 the HAVING evaluators do not order numbers or times by their renderings; E1 each comparisonFor* evaluator tests the cell's kind-specific field before comparing; L7 the evaluator builder's recursion terminates; L2 evaluator constructors never return (nil, nil). Also: E2 NOT never returns its operand; P5c; P8/P8b evaluator errors propagate. Not decided: truth-functional correctness of the boolean evaluator and of the hand-written expression builder. Round 3: E3 evaluators are stateless; E4 formatCell compares the cell's own text; E1 the literal type test lies on every path. Round 6: P5d only the limit stage cuts rows off; E5 NewEvaluator accepts only a fully consumed expression.",
+		Rules:       []func(*Ctx){ruleP5d, ruleE5, ruleT3, ruleE3, ruleE4, ruleE2, ruleP5, ruleP5c, func(c *Ctx) { ruleP8(c, "bql/semantic") }, func(c *Ctx) { ruleP8b(c, "bql/semantic") }, func(c *Ctx) { ruleP10(c, "bql/semantic") }, ruleE1, func(c *Ctx) { ruleL7(c, "bql/semantic") }, func(c *Ctx) { ruleL2(c, 40, "bql/semantic") }},
 		Level:       "stage dominance (P5), rendering taint (P10), structural recursion (L7)",
 		Trusted:     []string{trustedCore},
 		NotDecided:  []string{"truth-functional correctness of booleanNode and of the expression builder (evaluating them is symbolic execution, a different family)", "that comparisons with a constant of another kind never hold"},
 	})
 	reg(&Property{
 		ID:          "C14",
-		Explanation: "Decides one clause only: P11 no map iteration order reaches an ordered output — every range over a map in bql/… and storage/… whose body appends, sends, writes or leaves with an element is followed by a sort of what it built or is in the reviewed table with its reason; in particular the ORDER BY key list is no longer rebuilt from a map. Also: HK1 hooks consume the modifier token they remember (no carry-over to the next clause); P3b the last FROM graph does not decide feasibility alone; S6b; P12b; S1/S1x index agreement (answers do not depend on which index a clause order selects); M4/M5. Not decided: invariance under renaming, clause permutation, partitioning, chanSize/bulkSize/GOMAXPROCS, monotonicity. Round 3: P3c; TB2; D1; S3c; H1x.",
-		Rules:       []func(*Ctx){func(c *Ctx) { ruleR1(c, "triple/...", "io", "bql/...", "storage/...") }, ruleP3c, ruleTB2, ruleH1x, func(c *Ctx) { ruleD1(c, "triple/...", "io", "bql/...", "storage/...") }, func(c *Ctx) { ruleS3c(c, "triple/...", "io", "bql/...", "storage/...") }, ruleHK1, ruleS1, ruleS1x, ruleM4M5, func(c *Ctx) { ruleP11(c, "bql/...", "storage/...") }, ruleP3b, ruleS6b, ruleP12b},
+		Explanation: "Decides one clause only: P11 no map iteration order reaches an ordered output — every range over a map in bql/… and storage/… whose body appends, sends, writes or leaves with an element is followed by a sort of what it built or is in the reviewed table with its reason; in particular the ORDER BY key list is no longer rebuilt from a map. Also: HK1 hooks consume the modifier token they remember (no carry-over to the next clause); P3b the last FROM graph does not decide feasibility alone; S6b; P12b; S1/S1x index agreement (answers do not depend on which index a clause order selects); M4/M5. Not decided: invariance under renaming, clause permutation, partitioning, chanSize/bulkSize/GOMAXPROCS, monotonicity. Round 3: P3c; TB2; D1; S3c; H1x. Round 6: P3d the verdict of a ground clause reaches the caller.",
+		Rules:       []func(*Ctx){ruleP3d, func(c *Ctx) { ruleR1(c, "triple/...", "io", "bql/...", "storage/...") }, ruleP3c, ruleTB2, ruleH1x, func(c *Ctx) { ruleD1(c, "triple/...", "io", "bql/...", "storage/...") }, func(c *Ctx) { ruleS3c(c, "triple/...", "io", "bql/...", "storage/...") }, ruleHK1, ruleS1, ruleS1x, ruleM4M5, func(c *Ctx) { ruleP11(c, "bql/...", "storage/...") }, ruleP3b, ruleS6b, ruleP12b},
 		Level:       "enumeration of order-sensitive map ranges with a reviewed table (P11)",
 		Trusted:     []string{"p11Reviewed (8 sites, one reason each)", trustedCore},
 		NotDecided:  []string{"invariance under binding renaming, clause order, partitioning over graphs, channel/bulk sizes, GOMAXPROCS", "monotonicity under added triples — all relations between runs"},
@@ -205,8 +205,8 @@ func init() {
 	})
 	reg(&Property{
 		ID:          "C20",
-		Explanation: "Decides: P8 no error of a driver call or module function is dropped on an Execute path, in the memoizer or the io package; L2 no success return that discards a received error (nil table with nil error); L6 failures neither leak goroutines nor leave a ranged-over channel open; M4 partial reads are not cached; IO1 reader errors. Also: P9d first write error kept; I1; P8b; L6c consumers drain; L6d addTriples drains on every exit. Not decided: bounded time under arbitrary fault sequences; what a driver may do after returning an error. Round 3: S13. Round 5: P8f success after a fetch only past the nil test of its error; P8e an error produced in a loop is looked at inside the loop.",
-		Rules: []func(*Ctx){ruleP8f, func(c *Ctx) { ruleP8e(c, "bql/planner", "io", "storage/memoization") }, ruleP8c, ruleP8d, ruleS13, ruleP9d, ruleI1, func(c *Ctx) { ruleP8(c, "bql/planner", "storage/memoization", "io") }, func(c *Ctx) { ruleP8b(c, "bql/planner", "storage/memoization", "io") }, func(c *Ctx) { ruleL6c(c, "bql/planner", "io", "storage/...") }, ruleL6d,
+		Explanation: "Decides: P8 no error of a driver call or module function is dropped on an Execute path, in the memoizer or the io package; L2 no success return that discards a received error (nil table with nil error); L6 failures neither leak goroutines nor leave a ranged-over channel open; M4 partial reads are not cached; IO1 reader errors. Also: P9d first write error kept; I1; P8b; L6c consumers drain; L6d addTriples drains on every exit. Not decided: bounded time under arbitrary fault sequences; what a driver may do after returning an error. Round 3: S13. Round 5: P8f success after a fetch only past the nil test of its error; P8e an error produced in a loop is looked at inside the loop. Round 6: L6e.",
+		Rules: []func(*Ctx){func(c *Ctx) { ruleL6e(c, "bql/planner", "io", "storage/...") }, ruleP8f, func(c *Ctx) { ruleP8e(c, "bql/planner", "io", "storage/memoization") }, ruleP8c, ruleP8d, ruleS13, ruleP9d, ruleI1, func(c *Ctx) { ruleP8(c, "bql/planner", "storage/memoization", "io") }, func(c *Ctx) { ruleP8b(c, "bql/planner", "storage/memoization", "io") }, func(c *Ctx) { ruleL6c(c, "bql/planner", "io", "storage/...") }, ruleL6d,
 			func(c *Ctx) { ruleL2(c, 18, "bql/planner", "io") },
 			func(c *Ctx) { ruleL6(c, 25, "io", "bql/...", "storage/...") }, ruleM4M5, ruleIO1},
 		Level:      "error def-use (P8), (nil,nil) rule (L2), join typestate on error paths (L6), success-only caching (M4)",
